@@ -367,20 +367,30 @@ def eval_in_coq(name, module, verdict_expr, terms, per_shard=None, timeout=1500)
         return {}
     nshards = min(NPROC, n) if per_shard is None else max(1, (n + per_shard - 1) // per_shard)
     shards = [terms[i::nshards] for i in range(nshards)]
-    procs = []
+    paths = []
     for k, sh_terms in enumerate(shards):
         path = os.path.join(d, "shard_%d.v" % k)
         with open(path, "w", encoding="utf-8") as f:
             f.write(HEADER % module)
             for cid, term in sh_terms:
                 f.write("Eval vm_compute in (CASE %d, %s %s).\n" % (cid, verdict_expr or "", term))
-        procs.append((k, subprocess.Popen(
-            ["timeout", str(timeout), "coqc", "-noglob", "-Q", os.path.join(COQ, "theories"), "PLS", path],
-            stdout=subprocess.PIPE, stderr=subprocess.STDOUT, text=True, errors="replace", cwd=d)))
+        paths.append((k, path))
     result = {}
-    for k, p in procs:
+    # at most NPROC coqc processes at a time (a thorough run can have hundreds of shards)
+    pending, running = list(paths), []
+
+    def start(k, path):
+        return (k, subprocess.Popen(
+            ["timeout", str(timeout), "coqc", "-noglob", "-Q", os.path.join(COQ, "theories"), "PLS", path],
+            stdout=subprocess.PIPE, stderr=subprocess.STDOUT, text=True, errors="replace", cwd=d))
+    while pending or running:
+        while pending and len(running) < NPROC:
+            running.append(start(*pending.pop(0)))
+        k, p = running.pop(0)
         out, _ = p.communicate()
         if p.returncode != 0:
+            for _, q in running:
+                q.kill()
             raise TieBroken("coq-eval", "shard %d of %s failed (rc=%s): %s" % (k, name, p.returncode, out[-3000:]))
         for blk in out.split("= (CASE ")[1:]:
             m = re.match(r"\s*(\d+),", blk)
